@@ -222,41 +222,65 @@ def run(ctx):
     # ---------------- D3
     dn = prog.find("hulc::bdl::Data::new")
     sws = btype_switches(prog, dn, variants)
+    # routing switch: every block type is sent to a bucket (a push onto a named list in the arm, or a `&mut bucket` chosen in the arm and pushed after it);
+    # what matters is the partition of the block types, not what the buckets are called
     routing = {}
-    handled = {}
+    handled = []
     for (sc, b, arms, els, subject, ln) in sws:
         body = sc.body
-        # routing switch: arms push `block` into *_blocks
-        pushes_by_var = {}
+        dest_by_var = {}
         for v, tg in arms.items():
-            sets, pushes = arm_effects(sc, body, region_from(body, tg))
-            for p in pushes:
-                if p and p.endswith("_blocks"):
-                    pushes_by_var[v] = p
-        if pushes_by_var:
-            for v, p in pushes_by_var.items():
+            region = region_from(body, tg)
+            sets, pushes = arm_effects(sc, body, region)
+            dest = None
+            elem_name = subject[:-len(".btype")] if subject.endswith(".btype") else subject
+            for b_ in region:
+                t_ = body.blocks[b_]["term"]
+                if t_["t"] == "call" and short_callee(callee_name(t_) or "") == "push" and len(t_["args"]) == 2:
+                    # routing pushes the very element whose type is being looked at
+                    if (leaf_name(strip(sc.operand(t_["args"][1]))) or "") == elem_name:
+                        dest = leaf_name(strip(sc.operand(t_["args"][0])))
+            if dest is None and not pushes:
+                for nm_, val_ in sets.items():
+                    vv = strip(val_)
+                    ln_v = leaf_name(vv) or (leaf_name(strip(vv[2])) if vv[0] == "un" else None) or show(vv)
+                    if isinstance(ln_v, str) and "." in ln_v and not ln_v.endswith(".btype"):
+                        dest = ln_v
+            if dest is not None:
+                dest_by_var[v] = dest
+        if len(set(dest_by_var.values())) >= 3:
+            for v, p in dest_by_var.items():
                 routing.setdefault(p, set()).add(v)
             continue
-        # handling switch over a bucket: subject like "db_blocks[].btype"
-        m = re.match(r"^(\w+_blocks)\[\]", subject)
-        if m:
-            handled[m.group(1)] = (set(arms), sc, ln)
+        if not dest_by_var or len(set(dest_by_var.values())) < 3:
+            handled.append((set(arms), sc, ln, subject))
     ctx.floor("c18.routing", "routed buckets", len(routing), 5)
+    groups = {frozenset(v) for v in routing.values()}
     for bucket, want in sorted(ROUTING_SPEC.items()):
         key = "c18.routing|%s" % bucket
-        got = routing.get(bucket, set())
-        if got != want:
-            ctx.violation("c18.routing", key, "routed block types %s differ from the reference %s (missing %s, extra %s)" % (sorted(got), sorted(want), sorted(want - got), sorted(got - want)), dn.loc())
+        if frozenset(want) in groups:
+            ctx.ok("c18.routing", key, "routes %s to one bucket" % sorted(want), dn.loc())
+        elif routing:
+            got = sorted({tuple(sorted(g)) for g in groups if g & want})
+            ctx.violation("c18.routing", key, "the block types %s are not routed together as one group: they go to %s (a type routed elsewhere is parsed by the wrong handler or dropped)"
+                          % (sorted(want), got), dn.loc())
+    nh = 0
+    for hs, sc, ln, subject in handled:
+        # a handling switch over one bucket: exactly the types routed there
+        cand = [g for g in groups if g & hs]
+        if not cand or not any(frozenset(want) & hs for want in ROUTING_SPEC.values()):
+            continue
+        nh += 1
+        g = max(cand, key=lambda g_: len(g_ & hs))
+        bucket = next((k for k, w in ROUTING_SPEC.items() if frozenset(w) == g), "?")
+        hkey = "c18.handling|%s" % bucket
+        if any(i.key == hkey for i in ctx.instances):
+            continue
+        if hs == set(g):
+            ctx.ok("c18.handling", hkey, "the match over this bucket handles exactly the routed types (the `_ => unreachable!()` arm is dead)", sc.fn.loc(ln))
         else:
-            ctx.ok("c18.routing", key, "routes %s" % sorted(got), dn.loc())
-        if bucket in handled:
-            hs, sc, ln = handled[bucket]
-            hkey = "c18.handling|%s" % bucket
-            if hs == got:
-                ctx.ok("c18.handling", hkey, "the match over %s handles exactly the routed types (the `_ => unreachable!()` arm is dead)" % bucket, sc.fn.loc(ln))
-            else:
-                ctx.violation("c18.handling", hkey, "routed %s but handled %s: %s reach unreachable!() / are dropped" % (sorted(got), sorted(hs), sorted(got ^ hs)), sc.fn.loc(ln))
-    ctx.floor("c18.handling", "handling switches", len(handled), 3)
+            ctx.violation("c18.handling", hkey, "routed %s but handled %s: %s reach unreachable!() / are dropped" % (sorted(g), sorted(hs), sorted(set(g) ^ hs)), sc.fn.loc(ln))
+    ctx.floor("c18.handling", "handling switches", nh, 3)
 
     # ---------------- D4
     from ..spec.bdl_schema import ROWS
@@ -291,11 +315,18 @@ def run(ctx):
                 key = "c18.kyg|float-parse|%d" % nparse
                 # element rows use ';' separated columns with decimal comma; the header/solar rows use '.'
                 idx_desc = show(arg)[:90]
-                ctx.ok("c18.kyg", key, "parse::<f32>(%s)%s" % (idx_desc, " via decimal-comma replacement" if has_replace else ""), sc.fn.loc(t.get("ln")), extra={"replace": has_replace})
+                # a parse that sits in a private helper (`parse_decimal(field)`) serves every call site of that helper
+                uses = 1
+                hroot = prog.root_of(sc.fn)
+                if hroot.id != kp.id:
+                    from ..mir import callee_id as _cid
+                    uses = max(1, sum(1 for g_ in prog.fns.values() if g_.path.startswith("hulc::kyg::") for _, t_ in g_.body.calls() if _cid(t_) == hroot.id))
+                ctx.ok("c18.kyg", key, "parse::<f32>(%s)%s%s" % (idx_desc, " via decimal-comma replacement" if has_replace else "", " (helper used at %d places)" % uses if uses > 1 else ""),
+                       sc.fn.loc(t.get("ln")), extra={"replace": has_replace, "uses": uses})
     ctx.floor("c18.kyg", "float parses in kyg::parse", nparse, 10)
     # every float parse of an *element* row (walls/windows/bridges: the rows that carry `,` decimals) must replace ',' -> '.'
     from ..spec.bdl_schema import KYG_REPLACE_MIN
-    nrep = sum(1 for i in ctx.instances if i.rule == "c18.kyg" and i.extra and i.extra.get("replace"))
+    nrep = sum(i.extra.get("uses", 1) for i in ctx.instances if i.rule == "c18.kyg" and i.extra and i.extra.get("replace"))
     if nrep < KYG_REPLACE_MIN:
         ctx.violation("c18.kyg", "c18.kyg|decimal-comma", "only %d numeric columns go through replace(',', \".\"), reference %d: a decimal-comma value would fail to parse" % (nrep, KYG_REPLACE_MIN), kp.loc())
     else:
